@@ -1,14 +1,20 @@
 (** C03 — No lost wake-up.  Statements only.
-    PARTIAL: proved are the local wake-up rules (a refused hand-over leaves the waiting flag set; a waiting operational
-    device told about space schedules a new attempt at the same instant; restore / unblock / budget raise / resource changes
-    end in such a signal or attempt; availability checks after every release/registration/capacity change, C10).  The global
-    statement "when time advances every blocked part is genuinely blocked" and termination of a finite-horizon run are
-    decided on the implementation by the liveness monitor (re-offering every held part when the clock is about to advance)
-    and by the harness' step bound. *)
+    Proved: (1) the local wake-up rules (a refused hand-over leaves the waiting flag set, and it was refused by every downstream
+    neighbour; a waiting operational device told about space schedules a new attempt at the same instant; restore / unblock /
+    budget raise / resource changes end in such a signal or attempt; availability checks after every release / registration /
+    capacity change, C10);  (2) at the level of the event queue (Proofs/FloorWake.v, FloorWakeInv.v), for every state reached
+    without a Python exception, including every state inside a run: **no ready part is forgotten** — a device holding a part
+    that is ready to leave is flagged as waiting for downstream space or has a hand-over attempt of its own pending in the
+    queue, unless it is a shut-down processor (restore re-schedules) or a source whose budget is used up (a raise re-schedules)
+    ([C03_ready_part_flagged_or_pending]).
+    PARTIAL: the remaining global step — "a flagged part would still be refused by every neighbour whenever time advances" (every
+    change that could unblock it went through one of the signals of (1)) — and termination of a finite-horizon run are decided on
+    the implementation by the liveness monitor (re-offering every held part when the clock is about to advance) and by the
+    harness' step bound. *)
 From Coq Require Import ZArith List Bool Lia Sorting.Permutation Sorting.Sorted.
 From RecordUpdate Require Import RecordUpdate.
 From SimVerif Require Import Model.Base Model.Env Model.FamEnv Model.RM Model.Maint Model.FloorTypes Model.Floor Model.FamFloor.
-From SimVerif Require Import Proofs.RMInv Proofs.EnvInv Proofs.EnvPause Proofs.FloorSteps Proofs.FloorInv Proofs.FloorSys Proofs.FloorProc Proofs.FloorFlow Proofs.FloorRes.
+From SimVerif Require Import Proofs.RMInv Proofs.EnvInv Proofs.EnvPause Proofs.FloorSteps Proofs.FloorInv Proofs.FloorSys Proofs.FloorProc Proofs.FloorFlow Proofs.FloorRes Proofs.FloorLink Proofs.FloorIdle Proofs.FloorWake Proofs.FloorWakeInv.
 Import ListNotations.
 Open Scope Z_scope.
 
@@ -65,3 +71,60 @@ Example C03_nonvacuous :
   let w := mkFw [(1, x)] [] init_rs [] 1 [] [] 0 in
   f_out (signal 1 5 false w 1) = [FSched 5 P_PASS_PART 1 (APassPart 1)] /\ d_waiting_ds (getd (signal 1 5 false w 1) 1) = false.
 Proof. split; reflexivity. Qed.
+
+(** * queue level: no ready part is forgotten *)
+Theorem C03_ready_part_flagged_or_pending : forall sc s d,
+  reach_in sc s -> ready (getd (fst s) d) ->
+  exempt (getd (fst s) d) \/ d_waiting_ds (getd (fst s) d) = true \/
+  exists e : event fact, e_asset e = d /\ e_act e = Some (APassPart d) /\ e_cancelled e = false /\ In e (queue (snd s)).
+Proof. exact ready_part_flagged_or_pending. Qed.
+
+(** what "ready", "exempt" mean, spelled out *)
+Theorem C03_ready_def : forall x, ready x <->
+  match d_kind x with
+  | KHandler | KProcessor | KSource | KBatcher => d_out x <> None
+  | KBuffer => d_buf x <> []
+  | _ => False
+  end.
+Proof. intro x. reflexivity. Qed.
+Theorem C03_exempt_def : forall x, exempt x <->
+  (d_kind x = KProcessor /\ d_shut x = true) \/
+  (d_kind x = KSource /\ exists b, d_budget x = Some b /\ Z.max (b - d_produced x) 0 < 1).
+Proof.
+  intro x. unfold exempt, exhausted. split; (intros [H|[K H]]; [left; exact H|right; split; [exact K|]]).
+  - destruct (d_budget x) as [b|]; [|discriminate]. exists b. split; [reflexivity|]. apply negb_true_iff, Z.leb_gt in H. exact H.
+  - destruct H as [b [-> H]]. apply negb_true_iff, Z.leb_gt. exact H.
+Qed.
+
+(** a hand-over attempt always leaves its own device in order, whatever state it was in: passed on, flagged, or re-scheduled *)
+Theorem C03_attempt_settles_its_device : forall ws nw skip en0 fuel w d,
+  LP ws (fun d' => skip d' \/ d' = d) en0 w -> LP ws skip en0 (pass_part fuel nw w d).
+Proof. exact pass_part_fix. Qed.
+
+Print Assumptions C03_ready_part_flagged_or_pending.
+Print Assumptions C03_exempt_def.
+Print Assumptions C03_attempt_settles_its_device.
+
+(** Non-vacuity: source (cycle 8) -> processor (cycle 24) -> sink.  After one event the source holds a part with its attempt
+    pending; after four the processor is busy, the source's part was refused and is flagged, and time is about to advance. *)
+Definition c03_world : fw :=
+  mkFw [(1, (blank_dev KSource) <| d_down := [2] |> <| d_cycle := 8 |>);
+        (2, (blank_dev KProcessor) <| d_up := [1] |> <| d_down := [3] |> <| d_cycle := 24 |>);
+        (3, (blank_dev KSink) <| d_up := [2] |>)] [] init_rs [] 10 [] [] 0.
+Definition c03_sc : fl_scn := mkFlScn 1 1 c03_world [] [].
+Definition c03_s0 := fst (do_fxop c03_sc (c03_world, init_env) FXInit).
+Example C03_queue_nonvacuous :
+  reach_in c03_sc (fx_steps c03_sc 1 c03_s0) /\ ready (getd (fst (fx_steps c03_sc 1 c03_s0)) 1) /\
+  d_waiting_ds (getd (fst (fx_steps c03_sc 1 c03_s0)) 1) = false /\
+  map (fun e => (e_time e, e_asset e, e_act e)) (queue (snd (fx_steps c03_sc 1 c03_s0))) = [(8, 1, Some (APassPart 1))] /\
+  reach_in c03_sc (fx_steps c03_sc 4 c03_s0) /\ ready (getd (fst (fx_steps c03_sc 4 c03_s0)) 1) /\
+  d_waiting_ds (getd (fst (fx_steps c03_sc 4 c03_s0)) 1) = true /\
+  now (snd (fx_steps c03_sc 4 c03_s0)) = 16 /\ map (fun e => e_time e) (queue (snd (fx_steps c03_sc 4 c03_s0))) = [32].
+Proof.
+  assert (R0 : reach_ok c03_sc c03_s0).
+  { apply ro_init; [vm_compute; reflexivity|]. unfold c03_s0. vm_compute. reflexivity. }
+  split; [apply reach_ok_in, fx_steps_reach; [exact R0|vm_compute; reflexivity]|].
+  split; [vm_compute; congruence|]. split; [vm_compute; reflexivity|]. split; [vm_compute; reflexivity|].
+  split; [apply reach_ok_in, fx_steps_reach; [exact R0|vm_compute; reflexivity]|].
+  split; [vm_compute; congruence|]. repeat split; vm_compute; reflexivity.
+Qed.
